@@ -9,6 +9,8 @@
 (***************************************************************************)
 EXTENDS Melda
 
+CONSTANT EmitK     \* schedule emission prints one state in EmitK (1 = every distinct state)
+
 CCNames(S) == Core!Names(Core!CC(S))
 NoDamage == cnt.damage = 0
 ValidItems(S) == {i \in S : i.ok}
@@ -165,7 +167,7 @@ P_C11_AppendOnly == [][A_C11_AppendOnly]_vars
 -----------------------------------------------------------------------------
 (* Schedule emission: one line per distinct state (sched is hidden by the VIEW, so TLC keeps the
    first path to each state) *)
-EmitSched == PrintT(<<"SCHED", ToJson(sched)>>)
+EmitSched == (EmitK = 1 \/ RandomElement(1..EmitK) = 1) => PrintT(<<"SCHED", ToJson(sched)>>)
 
 \* non-vacuity counters (printed at the end by the POSTCONDITION)
 Interesting ==
